@@ -637,7 +637,9 @@ def check(mod, ctx, args):
         for vclass, path, detail, n in reported:
             lines.append("VIOLATION property=%s replay=%s" % (mod.ID, path))
             lines.append("  class=%s runs=%d detail=%s" % (vclass, n, str(detail)[:600]))
-        if reported and exit_code == 0:
+        if reported:
+            # a violation that reproduces from its replay file in a fresh interpreter stands on its own,
+            # whatever else went wrong in this run (harness errors are still printed above)
             exit_code = 1
 
     # ---- determinism self-test: a sample of runs again, in fresh interpreters,
@@ -648,7 +650,7 @@ def check(mod, ctx, args):
         det = determinism_sample(mod, ctx, digests, n_det)
         if det["mismatch"]:
             print("HARNESS-ERROR determinism self-test: %d of %d runs changed digest in a fresh interpreter under another PYTHONHASHSEED: %s" % (det["mismatch"], det["checked"], det["examples"]))
-            exit_code = 2
+            exit_code = max(exit_code, 2) if exit_code != 1 else 1
 
     # ---- vacuity guard
     vac = getattr(mod, "vacuity", None)
